@@ -145,7 +145,8 @@ def write_cfg(path, spec=None, init=None, next_=None, constants=None, invariants
         if constants:
             f.write("CONSTANTS\n")
             for k, v in constants.items():
-                f.write(f"  {k} = {v}\n")
+                # "<- Op": the constant is replaced by an operator of the model module
+                f.write(f"  {k} {v}\n" if str(v).startswith("<-") else f"  {k} = {v}\n")
         for i in invariants:
             f.write(f"INVARIANT {i}\n")
         for p in properties:
